@@ -215,3 +215,8 @@ Definition de_world (n : nat) (s : sworld) : de_error + world :=
   end.
 
 Definition de_events (w : world) : list event := [].
+
+(** * Dropping a world ([archetype/impl_drop.rs] for every archetype of the
+      table, then the resources): every stored value is dropped once. *)
+Definition drop_world (w : world) : list event :=
+  flat_map arch_drops (w_archs w) ++ res_drops (w_res w).
